@@ -52,9 +52,10 @@ type Prog struct {
 	immutCache        map[*ssa.Global]bool
 	guardOf           map[string]guardInfo      // fa function of a guarded field -> its mutex
 	guardedBy         map[string][]guardedField // fa function of a mutex field -> guarded fields
-	axTriggers map[string][]axTrigger
-	privFa     map[string]int
-	muOwner    map[string]muOwnerInfo
+	axTriggers        map[string][]axTrigger
+	privFa            map[string]int
+	StableTypes       []string
+	muOwner           map[string]muOwnerInfo
 	ContractFilesUsed []string
 	MirrorUsed        []string
 }
@@ -351,6 +352,7 @@ func (p *Prog) LoadSpecs(verifDir string) error {
 
 func (p *Prog) addSpecFile(sf *SpecFile) error {
 	p.SpecFiles = append(p.SpecFiles, sf)
+	p.StableTypes = append(p.StableTypes, sf.Stable...)
 	for _, g := range sf.Ghosts {
 		p.Ghosts[g.Name] = g
 	}
